@@ -502,7 +502,80 @@ def c14(ctx):
     ctx.assumptions += X_ASSUMPTIONS
 
 
+# ---------------------------------------------------------------- C15
+def items_of_trait(rec, t):
+    """token strings of the impl items the handler of trait t is responsible for"""
+    out = []
+    for it in rec.get('items') or []:
+        if it.get('trait') == t:
+            out.append(it['tokens'])
+        elif it.get('trait') is None and t == 'Default' and 'fn new' in (it.get('members') or []):
+            out.append(it['tokens'])
+    return out
+
+
+def c15(ctx):
+    quick = ctx.tier == 'quick'
+    runs = [{'module': 'MC_C15', 'cfg': 'MC_C15_quick.cfg', 'workers': 8}] if quick else \
+           [{'module': 'MC_C15', 'cfg': 'MC_C15_thorough.cfg', 'workers': 12, 'timeout': 3000, 'heap': '16g'}]
+    recs = model_check_tagged(ctx, runs, 'PAIRS')
+    exe = xchan.build(ctx)
+    requests = []
+    meta = {}
+    info = {}
+    n_pairs = 0
+    for ci, rec in enumerate(recs, 1):
+        cfg = rec['cfg']
+        texts = []
+        r1 = MultiRender(ci, cfg, 'C15', canonical=True, name='T')
+        texts.append(('full-canonical', r1.item(derive=False)))
+        r2 = MultiRender(ci, cfg, 'C15', canonical=False, name='T')
+        r2.pool = None
+        texts.append(('full-mixed-spelling', r2.item(derive=False)))
+        for pr in rec['pairs']:
+            t = pr['t']
+            n_pairs += 1
+            g = 'c%d:%s' % (ci, t)
+            r3 = MultiRender(ci, pr['restricted'], 'C15', canonical=True, name='T')
+            members = texts + [('restricted-to-%s' % t, r3.item(derive=False))]
+            for k, (label, text) in enumerate(members, 1):
+                rid = '%s#%d' % (g, k)
+                requests.append({'id': rid, 'text': text})
+                meta[rid] = {'mode': 'same', 'g': g, 'reset': k == 1, 't': t}
+                info[rid] = (ci, t, label, text)
+    ctx.info('%d configurations, %d (configuration, trait) pairs, %d expansions' % (len(recs), n_pairs, len(requests)))
+    trace, raw = xpipe.run_requests(ctx, exe, requests, meta, project=lambda r, m: '\n'.join(items_of_trait(r, m['t'])))
+    res = xpipe.validate(ctx, trace)
+    lines = rpipe.load_lines(trace, res['bad'])
+    rawmap = {r['id']: r for r in raw}
+    seen = set()
+    for ln in res['bad']:
+        e = lines[ln]
+        if e['g'] in seen:
+            continue
+        seen.add(e['g'])
+        ci, t, label, text = info[e['id']]
+        mem = []
+        for k in (1, 2, 3):
+            rid = '%s#%d' % (e['g'], k)
+            mem.append({'which': info[rid][2], 'text': info[rid][3], 'outcome': rawmap[rid]['outcome'], 'err': rawmap[rid].get('err'),
+                        'items_of_trait': items_of_trait(rawmap[rid], t)})
+        ctx.violation({'kind': 'trait-dependence', 'cfg': recs[ci - 1]['cfg'], 'trait': t},
+                      {'what': 'the impl generated for one trait differs when other traits (with attributes of their own) are present, or when their attributes are spelled/ordered differently',
+                       'members': mem})
+    ctx.coverage.update({
+        'traces_validated_against_impl': 1, 'trace_events': res['n'], 'trace_events_rejected': len(res['bad']),
+        'programs': len(recs), 'evaluations': len(requests), 'distinct_nontrivial': n_pairs,
+        'rule': 'multi-trait struct/enum configurations with at most MaxDeviations non-default settings (t-way) x every educed trait t; three expansions per pair: the full '
+                'configuration written canonically, the full configuration with mixed spellings/orders/attribute splitting, and Restrict(cfg, t) (only t and its coupled '
+                'partners educed, all other settings reset); the impl items of t must be token-identical; distinct_nontrivial = number of (configuration, trait) pairs',
+        'samples': [{'pair': requests[0]['id'].split('#')[0], 'members': [r['text'] for r in requests[:3]]}] if requests else [],
+    })
+    ctx.assumptions += X_ASSUMPTIONS
+
+
 REGISTRY = {
+    'C15': c15,
     'C14': c14,
     'C20': c20,
     'C10': c10,
